@@ -40,7 +40,7 @@ SEQ_RULE = ('seeded state-aware generator (psim/workload.py) produces a '
             'DISTINCT stored states (digest of the natural dump without '
             'generations) reached after at least one accepted write.')
 
-SEQ_N = {'quick': 900, 'thorough': 14000}
+SEQ_N = {'quick': 900, 'thorough': 9000}
 
 PLANS = {}
 
@@ -48,7 +48,9 @@ PLANS = {}
 def _seq_plan(prop, text, extra_assumptions=()):
     def plan(tier):
         return {
-            'runs': [('seq', {'variant': prop}, SEQ_N[tier])],
+            'runs': [('seq', {'variant': prop} if tier == 'quick' else
+                      {'variant': prop, 'n_ops': [25, 60, 120]},
+                      SEQ_N[tier])],
             'level': 'exploration',
             'rule': SEQ_RULE + ' ' + text,
             'assumptions': COMMON_ASSUMPTIONS + list(extra_assumptions),
